@@ -1,1 +1,96 @@
-//! Hooks for property C21 (empty unless needed).
+//! Hooks for property C21: a `RemoteMap` outside a socket, driven the way the socket actor drives it
+//! (`resolve_remote`, `cleanup`) plus the direct use of a cloned inbox sender (`Socket::remote_info`).
+use std::{collections::BTreeSet, sync::Arc};
+
+use iroh_base::{EndpointAddr, EndpointId};
+use n0_future::future::now_or_never;
+use n0_watcher::Watchable;
+use tokio::sync::oneshot;
+use tokio_util::sync::CancellationToken;
+
+pub use crate::address_lookup::AddressLookupFailed;
+use crate::{
+    address_lookup::AddressLookupServices,
+    socket::{
+        DirectAddr, Metrics as SocketMetrics,
+        biased_rtt_path_selector::BiasedRttPathSelector,
+        remote_map::{RemoteInfo, RemoteMap},
+    },
+};
+
+/// Result of handing a `RemoteInfo` request directly to a remote's inbox sender.
+#[derive(Debug)]
+pub enum DirectSend {
+    /// No sender registered for the remote (`Socket::remote_info` returns `None`).
+    NoSender,
+    /// The inbox was closed.
+    Closed,
+    /// The inbox was full.
+    Full,
+    /// Accepted by the inbox; the reply arrives on the receiver.
+    Accepted(oneshot::Receiver<RemoteInfo>),
+}
+
+/// A real `RemoteMap` with no address-lookup service configured.
+#[derive(Debug)]
+pub struct Map {
+    inner: RemoteMap,
+    _direct_addrs: Watchable<BTreeSet<DirectAddr>>,
+    shutdown: CancellationToken,
+}
+
+impl Map {
+    /// Must be called inside a tokio runtime (actors are spawned on it).
+    pub fn new() -> Self {
+        let metrics = Arc::new(SocketMetrics::default());
+        let watchable: Watchable<BTreeSet<DirectAddr>> = Watchable::new(BTreeSet::new());
+        let shutdown = CancellationToken::new();
+        let inner = RemoteMap::verif_new(
+            metrics,
+            watchable.watch(),
+            AddressLookupServices::default(),
+            shutdown.clone(),
+            Arc::new(BiasedRttPathSelector::default()),
+        );
+        Self {
+            inner,
+            _direct_addrs: watchable,
+            shutdown,
+        }
+    }
+
+    /// `RemoteMap::resolve_remote`, as called by the socket actor for `ActorMessage::ResolveRemote`.
+    pub async fn resolve(
+        &mut self,
+        addr: EndpointAddr,
+    ) -> oneshot::Receiver<Result<(), AddressLookupFailed>> {
+        let (tx, rx) = oneshot::channel();
+        self.inner.verif_resolve_remote(addr, tx).await;
+        rx
+    }
+
+    /// One poll of `RemoteMap::cleanup`, as the socket actor's select loop does.
+    pub fn cleanup_once(&mut self) -> Option<EndpointId> {
+        now_or_never(self.inner.verif_cleanup())
+    }
+
+    /// Is a sender registered for the remote?
+    pub fn has_sender(&self, id: EndpointId) -> bool {
+        self.inner.verif_has_sender(id)
+    }
+
+    /// `Socket::remote_info`'s use of the shared sender map, without waiting.
+    pub fn remote_info_direct(&self, id: EndpointId) -> DirectSend {
+        match self.inner.verif_remote_info_direct(id) {
+            Ok(rx) => DirectSend::Accepted(rx),
+            Err(0) => DirectSend::NoSender,
+            Err(1) => DirectSend::Closed,
+            Err(_) => DirectSend::Full,
+        }
+    }
+
+    /// Cancels the shutdown token handed to every actor.
+    pub fn shutdown(&self) {
+        self.shutdown.cancel();
+    }
+}
